@@ -11,7 +11,7 @@ import (
 // work-group runs the same code; G/K guard the statement by the wavefront's
 // index inside its work-group (s4).
 type Stmt struct {
-	Op string `json:"op"`          // barrier endpgm waitcnt nop salu vmov sload fload use fstore ldsw ldsr
+	Op string `json:"op"`          // barrier endpgm waitcnt nop salu vmov sload fload floadu use fstore ldsw ldsr
 	G  string `json:"g,omitempty"` // "", eq, ne, lt, gt : executed only if wfid <g> K
 	K  int    `json:"k,omitempty"`
 	GW string `json:"gw,omitempty"` // second guard, on the work-group id (s2): eq ne lt gt
@@ -48,6 +48,8 @@ func stmtWords(s Stmt) []uint32 {
 		return []uint32{0xC0020300, 0x00000000}
 	case "fload": // flat_load_dword v3, v[1:2]
 		return []uint32{0xDC500000, 0x03000001}
+	case "floadu": // flat_load_dword v3, v[11:12]  (v[1:2] + 48 bytes: lanes straddle cache lines unevenly)
+		return []uint32{0xDC500000, 0x0300000B}
 	case "use": // v_add_u32 v7, vcc, v7, v3
 		return []uint32{0x320E0707}
 	case "fstore": // flat_store_dword v[8:9], v7
@@ -65,7 +67,7 @@ var sopcOf = map[string]uint32{"eq": 6, "ne": 7, "gt": 8, "lt": 10}
 func usesMem(prog []Stmt) bool {
 	for _, s := range prog {
 		switch s.Op {
-		case "sload", "fload", "use", "fstore", "ldsw", "ldsr":
+		case "sload", "fload", "floadu", "use", "fstore", "ldsw", "ldsr":
 			return true
 		}
 	}
@@ -92,6 +94,8 @@ func assemble(prog []Stmt, wgSize int) []uint32 {
 			0x3210140A, // v_add_u32 v8, vcc, s10, v10
 			0x7E12020B, // v_mov_b32 v9, s11
 			0x38121280, // v_addc_u32 v9, vcc, 0, v9, vcc
+			0x321602B0, // v_add_u32 v11, vcc, 48, v1
+			0x38180480, // v_addc_u32 v12, vcc, 0, v2, vcc
 			0x7E0E0300, // v_mov_b32 v7, v0
 			0x240A0082, // v_lshlrev_b32 v5, 2, v0
 			0x2A0C0AFF, 0x00000100, // v_xor_b32 v6, 0x100, v5
@@ -153,7 +157,7 @@ func codeObject(ws []uint32, ldsBytes int) *insts.KernelCodeObject {
 	co.EnableSgprKernargSegmentPtr = true
 	co.ComputePgmRsrc2 = 1 << 7 // work-group id X in s2
 	co.WFSgprCount = 16
-	co.WIVgprCount = 12
+	co.WIVgprCount = 16
 	co.Version = insts.CodeObjectV3
 	return co
 }
